@@ -39,10 +39,15 @@ def pblk : SPageBlock :=
     last := none }
 def page : SRule := .page [] g psel g pblk
 def href : SHref := .url [(true, false), (false, true), (true, false)] [.space] [] (some .sq) (cps "a.css")
+def vd1 : SVarDecl :=
+  { name := cps "c1", nameSp := [(true, false)], g1 := gc, g2 := gc, value := [idt "red" 7], g3 := g }
+def vd2 : SVarDecl := { name := cps "w", g2 := g, value := [num "0", sp, num "1"] }
+def vblk : SVarBlock := { lead := gc, items := [(vd1, gc)], last := some vd2 }
 def sheet : SSheet :=
   { charset := some (.dq, cps "utf-8"), lead := [sp1],
     imports := [(.import_ [(true, false)] g href g (some ([idt "print"], g)) (some (.dq, cps "imp", g)), [sp1])],
     namespaces := [(.namespace_ [] g (some (cps "p", g)) (.str .dq (cps "urn:x")) [], [sp1])],
+    variables := [(.variables [(true, false)] gc vblk, [sp1]), (.comment (cps "v"), [])],
     rules := .cons style [sp1, sp1] (.cons (.unknown unk) [] (.cons media [] (.cons (.fontface [] g blk) [] (.cons page [] .nil)))) }
 
 theorem dColor_wf (O : Oracle) (h : ∀ l, O.valueOk l = true) : dColor.WF O :=
@@ -90,8 +95,28 @@ theorem unk_ok : UnknownRuleOk M unk := by
 theorem mq_ok : MqOk [idt "print"] :=
   ⟨core_of _ ⟨_, _, rfl, by decide⟩ ⟨[], _, rfl, by decide⟩, ⟨by decide, by decide⟩, by decide, by decide⟩
 
+theorem vd1_wf : vd1.WF O :=
+  ⟨nameOk_of _ (by decide) ⟨_, _, rfl, by decide⟩,
+   ⟨core_of _ ⟨_, _, rfl, by decide⟩ ⟨[], _, rfl, by decide⟩, by decide, by decide⟩, ⟨_, _, rfl, by decide⟩, rfl⟩
+
+theorem vd2_wf : vd2.WF O :=
+  ⟨nameOk_of _ (by decide) ⟨_, _, rfl, by decide⟩,
+   ⟨core_of _ ⟨_, _, rfl, by decide⟩ ⟨[num "0", sp], _, rfl, by decide⟩, by decide, by decide⟩,
+   ⟨_, _, rfl, by decide⟩, rfl⟩
+
+theorem vblk_wf : vblk.WF O := by
+  refine ⟨?_, ?_, by decide⟩
+  · intro q hq
+    simp only [vblk, List.mem_cons, List.mem_nil_iff, or_false] at hq
+    subst hq
+    exact vd1_wf
+  · intro d hd
+    simp only [vblk, Option.some.injEq] at hd
+    subst hd
+    exact vd2_wf
+
 theorem sheet_wf : sheet.WF O M := by
-  refine ⟨?_, ?_, ?_, by decide, by decide, ?_⟩
+  refine ⟨?_, ?_, ?_, by decide, by decide, ?_, ?_⟩
   · intro c hc
     simp only [sheet, Option.some.injEq] at hc
     subst hc
@@ -113,6 +138,11 @@ theorem sheet_wf : sheet.WF O M := by
     simp only [Option.some.injEq] at hq
     subst hq
     exact ⟨_, _, rfl, by decide⟩
+  · intro p hp
+    simp only [sheet, List.mem_cons, List.mem_nil_iff, or_false] at hp
+    rcases hp with rfl | rfl
+    · exact vblk_wf
+    · trivial
   · refine And.intro (show StyleWF O _ sel blk from style_wf _) (And.intro (show UnknownRuleOk M unk from unk_ok)
       (And.intro (show MqOk _ ∧ O.mediaOk _ = true ∧ SRules.WF O M _ true _ ∧ NameWF _ from
           ⟨mq_ok, rfl, ⟨show StyleWF O _ sel blk from style_wf _, trivial, trivial⟩,
